@@ -45,6 +45,21 @@ prop(
     bounded="bounded.c19_trees",
 )
 
+
+prop(
+    "C04",
+    ["contracts.c04_partial"],
+    "other",
+    "contract-based deductive verification of the step cases of an induction over the expression tree of t1 >> ... >> tn >> tail: Partial.__construct__, __rshift__, __call__, _check_signature, __init__, PartialBind.__rshift__ and the .s factories are proved per shape (argument / target lists of length <= 3, symbolic elements) against interface contracts assumed at nested elements; inspect's bind_partial is an assumed contract; transparency of @service is a static obligation",
+    "proved per function: x >> pending y constructs nothing and denotes flat(x) ++ flat(y); x >> leaf template constructs the tail exactly once then binds; bind >> pool applies every element exactly once, last to first, each to the result of the next, returning the head's result; __construct__ passes the target first, then stored positionals, then keywords; currying appends positionals, merges keywords (duplicate = TypeError) and re-checks the signature at once; 'target' by name or a Pool as first positional is rejected; otherwise TypeError iff inspect's bind_partial (with the target placeholder unless leaf) raises",
+    "trusted: pyvc's Python semantics; the assumed contract of inspect.Signature.from_callable/bind_partial (agreement with Python's real binding rules is assumed, not proved); widths > 3 not proved; the written induction over expression trees combines the step cases (DESIGN.md C04)",
+    trusted=["assumed: Signature.from_callable(ctor).bind_partial(*a, **k) raises TypeError iff the arguments can never bind to ctor's parameters",
+             "NOT proved: argument / target lists longer than 3 (shapes are unrolled); the combination of the step cases into the statement about every parenthesisation is a written induction (DESIGN.md), not machine-checked",
+             "hypothesis: constructors are arbitrary callables with arbitrary outcomes; nested elements of a bind obey the interface contract of >> (induction hypothesis)"],
+    explanation="step cases proved by VCs per shape; @service transparency is a known finding",
+    design_ref="5/C04",
+)
+
 NOT_APPLICABLE = {pid: NOT_BUILT for pid in ["C%02d" % i for i in range(1, 20)]}
 NOT_APPLICABLE["C13"] = (
     "process-level property (exit status of python -m cobald.daemon, SIGINT delivery, log output, and 'keeps all of them alive' = garbage-collector "
